@@ -5,6 +5,9 @@ EXTENDS UrlScheme, Json, CSV
 
 UEmit == CSVWrite("%1$s", <<ToJson([isnil |-> isnil, scheme |-> s, rest |-> rest,
                                      ishttp |-> IsHTTPScheme(s), isgrpc |-> IsGRPCScheme(s),
+                                     ishttpa |-> IsKindA("http", s), isgrpca |-> IsKindA("grpc", s),
                                      vfile |-> Validate("file", U), vhttp |-> Validate("http", U),
-                                     vgrpc |-> Validate("grpc", U)])>>, "url_vectors.ndjson")
+                                     vgrpc |-> Validate("grpc", U),
+                                     vfilea |-> ValidateA("file", U), vhttpa |-> ValidateA("http", U),
+                                     vgrpca |-> ValidateA("grpc", U)])>>, "url_vectors.ndjson")
 =============================================================================
